@@ -5,10 +5,11 @@ ENGINES = {
     'C05': 'sim.engines.machine',
     'C07': 'sim.engines.c07',
     'C14': 'sim.engines.c14',
+    'C19': 'sim.engines.c19',
 }
 
 ENGINE_TABLE = [
-    {'name': 'E-pipeline', 'path': 'sim/engines/pipeline.py', 'serves_properties': ['C02', 'C03', 'C14'],
+    {'name': 'E-pipeline', 'path': 'sim/engines/pipeline.py', 'serves_properties': ['C02', 'C03', 'C14', 'C19'],
      'kind_free_text': 'proof modules composed with the real toolkit (seeded forward composition of primitive rules and every public library lemma over an import graph), serialised by the real ProofExp.serialize through an in-memory file system (SimFS) installed at the module-global open seam, then handed to the real Rust checker, the reference machine R1, the journal model R6 and the real deserialiser; stream faults injected into the live byte stream'},
     {'name': 'E-history', 'path': 'sim/engines/history.py', 'serves_properties': ['C04', 'C07'],
      'kind_free_text': 'seeded histories of proof-DSL calls (incl. adversarial, inapplicable calls) issued to a real SerializingInterpreter (bare or under MemoizingInterpreter / InstantiationOptimizer) writing to in-memory sinks; lock-step refinement of the emitted bytes against the reference machine R1 and the real Rust checker'},
@@ -17,6 +18,12 @@ ENGINE_TABLE = [
 ]
 
 META = {
+    'C19': {
+        'engine': 'E-pipeline', 'level': 'exploration', 'design_ref': 'DESIGN.md section 4 (C19)',
+        'technique': 'deterministic simulation of serialisation histories on one module object (binary/pretty interleaved, optimise mixed) with step-by-step correspondence of the pretty files to the disassembled binary files; plus an artefact monitor over notation renderings',
+        'text': 'Sentence 2 of the property is decided by simulation: one module object is serialised 2-4 times in one process in a seeded order of (format, optimise) jobs; for each (binary, pretty) pair with equal optimise setting every line of the pretty file must be a step, a continuation line or a stack dump, and the steps must match the binary instructions one to one in order with equal scalar operands (symbols under one injective map, Load slots equal, Instantiate keys reversed). Sentence 1 (a pure function of a notation application) is only monitored: seeded shipped notations at seeded argument tuples with pairwise distinct renderings must render differently when they differ at a definition-relevant position.',
+        'note': 'Weak fit, stated in DESIGN.md: the notation half is an artefact monitor, not a simulation result. Trusted: the small pretty-file reader in c19.py, R1.parse_one.',
+    },
     'C02': {
         'engine': 'E-pipeline', 'level': 'exploration', 'design_ref': 'DESIGN.md section 4 (C02)',
         'technique': 'deterministic simulation of the generator -> files -> checker pipeline (fault-free class): seeded module compositions through the real serialiser and an in-memory file system into the real checker and a reference machine',
